@@ -34,11 +34,12 @@ Record jstate := JState {
   jg : ts;                       (* Global allocator memory (raw) *)
   jl : nat -> ts;                (* Local allocator memories (raw) *)
   jlastg : ts;                   (* ghost: raw value of the last Global timestamp handed out *)
-  jout : list jrec               (* ghost: answers, newest first *)
+  jout : list jrec;              (* ghost: answers, newest first *)
+  jreq : option (Z * list nat)   (* Global request in flight (it holds syncMu): its count and the dcs it synchronises *)
 }.
 
 Definition jinit (leader : nat) (g0 : ts) : jstate :=
-  JState [] (fun _ => 0) (fun _ => None) leader g0 (fun _ => (0, 0)) g0 [].   (* nothing handed out above g0 *)
+  JState [] (fun _ => 0) (fun _ => None) leader g0 (fun _ => (0, 0)) g0 [] None.   (* nothing handed out above g0 *)
 
 Inductive jlabel :=
 | JCheckLeader (dc : nat)            (* the PD leader's checker meets dc: create-if-absent suffix, own view raised *)
@@ -49,7 +50,9 @@ Inductive jlabel :=
 | JLocal (dc : nat) (c : Z)
 | JTick (dc : nat) (p : Z)
 | JGTick (p : Z)
-| JGlobal (c : Z).
+| JGlobal (c : Z)                    (* a whole Global request (= JGBegin; JGEnd) *)
+| JGBegin (c : Z)                    (* the request takes syncMu and fixes the dc-locations it synchronises *)
+| JGEnd.                             (* collect, write back, persist, answer; syncMu released *)
 
 Definition width_of (s : jstate) (m : nat) : Z := cal_suffix_bits (jview s m).
 
@@ -60,52 +63,74 @@ Definition max_known (s : jstate) : ts := fold_left (fun a dc => ts_max a (jl s 
 
 Definition all_hosted (s : jstate) : bool := forallb (fun dc => match jhost s dc with Some _ => true | None => false end) (map fst (jstore s)).
 
-Definition jstep (s : jstate) (l : jlabel) : option jstate :=
+(* what a Global request does when it runs: above every memory of the dcs it synchronises and its own, written back *)
+Definition max_over (s : jstate) (set : list nat) : ts := fold_left (fun a dc => ts_max a (jl s dc)) set (jg s).
+Definition global_end (s : jstate) (c : Z) (set : list nat) : jstate :=
+  let top := max_over s set in
+  let x := (fst top, snd top + c) in
+  JState (jstore s) (jview s) (jhost s) (jpdl s) x
+         (fun dc => if existsb (Nat.eqb dc) set then write_ts (jl s dc) x else jl s dc) x
+         (JRec None (jpdl s) (fst x) (snd x) c 0 (width_of s (jpdl s)) :: jout s) None.
+
+(* `excl` = GetMaxLocalTSO (the read of a starting allocator) and the Global request exclude each other (syncMu), as in
+   the repaired code; jstep_gen false is the code before that repair, kept for the theorem that says why it is needed *)
+Definition jstep_gen (excl : bool) (s : jstate) (l : jlabel) : option jstate :=
   match l with
   | JCheckLeader dc =>
       let (st, v) := sfx_assign (jstore s) dc in
-      Some (JState st (upd_f (jview s) (jpdl s) (Z.max (jview s (jpdl s)) v)) (jhost s) (jpdl s) (jg s) (jl s) (jlastg s) (jout s))
+      Some (JState st (upd_f (jview s) (jpdl s) (Z.max (jview s (jpdl s)) v)) (jhost s) (jpdl s) (jg s) (jl s) (jlastg s) (jout s) (jreq s))
   | JCheckFollower m =>
-      Some (JState (jstore s) (upd_f (jview s) m (Z.max (jview s m) (sfx_max (jstore s)))) (jhost s) (jpdl s) (jg s) (jl s) (jlastg s) (jout s))
+      Some (JState (jstore s) (upd_f (jview s) m (Z.max (jview s m) (sfx_max (jstore s)))) (jhost s) (jpdl s) (jg s) (jl s) (jlastg s) (jout s) (jreq s))
   | JStart dc m clockp =>
-      match sfx_lookup (jstore s) dc, jhost s dc with
-      | Some v, None =>
+      match sfx_lookup (jstore s) dc, jhost s dc, (if excl then jreq s else None) with
+      | Some v, None, None =>
           (* Initialize: above this dc's own history (C02) and the clock; then WriteTSO(GetDCLocationInfo.MaxTs) *)
           let own := tick (jl s dc) clockp in
           let m0 := write_ts own (max_known s) in
           Some (JState (jstore s) (upd_f (jview s) m (Z.max (jview s m) v)) (upd_f (jhost s) dc (Some m)) (jpdl s) (jg s)
-                       (upd_f (jl s) dc m0) (jlastg s) (jout s))
-      | _, _ => None
+                       (upd_f (jl s) dc m0) (jlastg s) (jout s) (jreq s))
+      | _, _, _ => None
       end
   | JStop dc =>
-      Some (JState (jstore s) (jview s) (upd_f (jhost s) dc None) (jpdl s) (jg s) (jl s) (jlastg s) (jout s))
+      Some (JState (jstore s) (jview s) (upd_f (jhost s) dc None) (jpdl s) (jg s) (jl s) (jlastg s) (jout s) (jreq s))
   | JLeaderMove m =>
-      Some (JState (jstore s) (upd_f (jview s) m (Z.max (jview s m) (sfx_max (jstore s)))) (jhost s) m (jg s) (jl s) (jlastg s) (jout s))
+      Some (JState (jstore s) (upd_f (jview s) m (Z.max (jview s m) (sfx_max (jstore s)))) (jhost s) m (jg s) (jl s) (jlastg s) (jout s) (jreq s))
   | JLocal dc c =>
       match jhost s dc, sfx_lookup (jstore s) dc with
       | Some m, Some v =>
           if 0 <? c then
             let x := (fst (jl s dc), snd (jl s dc) + c) in
             Some (JState (jstore s) (jview s) (jhost s) (jpdl s) (jg s) (upd_f (jl s) dc x) (jlastg s)
-                         (JRec (Some dc) m (fst x) (snd x) c v (width_of s m) :: jout s))
+                         (JRec (Some dc) m (fst x) (snd x) c v (width_of s m) :: jout s) (jreq s))
           else None
       | _, _ => None
       end
   | JTick dc p =>
-      Some (JState (jstore s) (jview s) (jhost s) (jpdl s) (jg s) (upd_f (jl s) dc (tick (jl s dc) p)) (jlastg s) (jout s))
+      Some (JState (jstore s) (jview s) (jhost s) (jpdl s) (jg s) (upd_f (jl s) dc (tick (jl s dc) p)) (jlastg s) (jout s) (jreq s))
   | JGTick p =>
-      Some (JState (jstore s) (jview s) (jhost s) (jpdl s) (tick (jg s) p) (jl s) (jlastg s) (jout s))
+      Some (JState (jstore s) (jview s) (jhost s) (jpdl s) (tick (jg s) p) (jl s) (jlastg s) (jout s) (jreq s))
   | JGlobal c =>
       (* refused unless every known dc has an allocator leader; the answer is above every memory, and every
          Local memory is raised to it (model/C05_TsoGlobal.v proves that of the protocol) *)
-      if all_hosted s && (0 <? c) then
-        let top := max_known s in
-        let x := (fst top, snd top + c) in
-        Some (JState (jstore s) (jview s) (jhost s) (jpdl s) x
-                     (fun dc => if existsb (Nat.eqb dc) (hosted s) then write_ts (jl s dc) x else jl s dc) x
-                     (JRec None (jpdl s) (fst x) (snd x) c 0 (width_of s (jpdl s)) :: jout s))
-      else None
+      match jreq s with
+      | None => if all_hosted s && (0 <? c) then Some (global_end s c (hosted s)) else None
+      | Some _ => None
+      end
+  | JGBegin c =>
+      match jreq s with
+      | None => if all_hosted s && (0 <? c)
+                then Some (JState (jstore s) (jview s) (jhost s) (jpdl s) (jg s) (jl s) (jlastg s) (jout s) (Some (c, hosted s)))
+                else None
+      | Some _ => None
+      end
+  | JGEnd =>
+      match jreq s with
+      | Some (c, set) => Some (global_end s c set)
+      | None => None
+      end
   end.
+
+Definition jstep := jstep_gen true.
 
 Definition jreach leader g0 (ls : list jlabel) : jstate := exec jstep (jinit leader g0) ls.
 
